@@ -754,6 +754,88 @@ func c02History(c *fw.Ctx, idx int) {
 	}
 }
 
+// histories on geometries of a thousand and more parts (1024, 2048 and 4096 are
+// among the sizes): what an implementation keeps per part - an index of
+// offsets, say - is built, extended and consulted at sizes the short histories
+// never reach
+func c02Long(c *fw.Ctx, idx int) {
+	r := c.R
+	kind := []model.Kind{model.MultiPolygon, model.MultiPolygon, model.MultiLineString, model.MultiPoint, model.Polygon}[r.Intn(5)]
+	layout := c02Layouts[r.Intn(4)]
+	a := newTracked(kind, layout, 0)
+	n0 := []int{1020 + r.Intn(10), 2044 + r.Intn(10), 4092 + r.Intn(10), r.Range(1000, 1300)}[r.Intn(4)]
+	emptyShare := []int{0, 5, 30}[r.Intn(3)]
+	c.SetInput(map[string]any{"kind": kind.String(), "layout": layout.String(), "parts_pushed_at_first": n0, "percent_empty": emptyShare})
+	small := func(empty bool) *model.G {
+		if empty {
+			return c02EmptyPart(r, kind, layout)
+		}
+		p := c02Part(r, kind, layout)
+		for try := 0; try < 8 && p.IsEmpty(); try++ {
+			p = c02Part(r, kind, layout)
+		}
+		return p
+	}
+	pushOne := func(p *model.G) bool {
+		var err error
+		if c.Guard("panic", func() { err = a.push(p.BuildFlat()) }) {
+			return false
+		}
+		if err != nil {
+			c.Fail("push-error", "Push of a matching-layout part failed: %v", err)
+			return false
+		}
+		a.modelPush(p)
+		return true
+	}
+	for i := 0; i < n0; i++ {
+		if !pushOne(small(r.Intn(100) < emptyShare)) {
+			return
+		}
+		// now and then a part is looked at while the geometry grows
+		if r.Chance(1, 200) {
+			j := r.Intn(a.numParts())
+			var part geom.T
+			if c.Guard("panic", func() { part = a.partGeom(j) }) {
+				return
+			}
+			if !expectGeom(c, fmt.Sprintf("part accessor %d of %d while the first parts are being pushed", j, a.numParts()), part, a.partModel(j), model.Opts{IgnoreSRID: true}) {
+				return
+			}
+		}
+	}
+	c.Count("long_histories")
+	c.CountN("parts_pushed_in_long_histories", int64(n0))
+	if !a.sweep(c, fmt.Sprintf("after the first %d pushes", n0)) {
+		return
+	}
+	steps := r.Range(4, 16)
+	for s := 0; s < steps; s++ {
+		empty := r.Chance(1, 2)
+		p := small(empty)
+		if !pushOne(p) {
+			return
+		}
+		c.SetInput(map[string]any{"kind": kind.String(), "layout": layout.String(), "parts_pushed_at_first": n0, "percent_empty": emptyShare, "then": fmt.Sprintf("%d more pushes, the last one %s", s+1, p)})
+		// the part just pushed, a few others, and now and then everything
+		last := a.numParts() - 1
+		for _, j := range []int{last, last - 1, r.Intn(last + 1), 0} {
+			var part geom.T
+			if c.Guard("panic", func() { part = a.partGeom(j) }) {
+				return
+			}
+			if !expectGeom(c, fmt.Sprintf("part accessor %d of %d", j, last+1), part, a.partModel(j), model.Opts{IgnoreSRID: true}) {
+				return
+			}
+		}
+		if r.Chance(1, 4) && !a.sweep(c, fmt.Sprintf("after %d more pushes", s+1)) {
+			return
+		}
+	}
+	a.sweep(c, "at the end of the long history")
+	c.Distinct(fmt.Sprintf("long/%s/%s/%d", kind, layout, n0))
+}
+
 // exhaustive MultiPolygon histories of length <= 5 over a 4-part alphabet
 func c02ExhMultiPolygon(c *fw.Ctx, idx int) {
 	n := 1
@@ -829,6 +911,7 @@ func init() {
 		Assume: []string{"list model in mon/c02.go; WF monitor"},
 		Classes: []fw.Class{
 			{Name: "histories", Quick: 80000, Thorough: 1000000, Run: c02History},
+			{Name: "long-histories", Quick: 96, Thorough: 3000, Chunk: 4, Run: c02Long},
 			{Name: "exhaustive-multipolygon", Quick: 1364, Thorough: 1364, Run: c02ExhMultiPolygon, Exhaustive: "every MultiPolygon Push history of length 1..5 over the alphabet {empty polygon, 1 ring, 2 rings, only empty rings}"},
 		},
 		Require: []string{"op_push", "op_push_wrong_layout", "op_reverse", "op_swap", "op_clone", "op_setlayout", "pushed_empty_part", "empty_part_accessed", "history_with_empty_part_before_nonempty", "exhaustive_histories"},
